@@ -117,6 +117,73 @@ fn draw_hosts(rng: &mut Rng, cert_base: usize) -> Hosts {
     Hosts { main, ping, speed, rp }
 }
 
+/// A reload that changes one thing only: the alternative names of one host (certificate
+/// untouched), the certificate of one host, the class of one host, or one host more or less
+fn edit_hosts(rng: &mut Rng, cur: &Hosts, cert_base: usize) -> Hosts {
+    let mut h = cur.clone();
+    match rng.below(6) {
+        0 | 1 => {
+            let i = rng.usize_below(h.main.len());
+            let fresh = format!("alt{}.{}", rng.below(3), *rng.pick(&["cdn.test", "vpn.example", "example"]));
+            match rng.below(3) {
+                0 => h.main[i].allowed_sni.clear(),
+                1 => h.main[i].allowed_sni = vec![fresh],
+                _ => {
+                    if !h.main[i].allowed_sni.contains(&fresh) {
+                        h.main[i].allowed_sni.push(fresh);
+                    }
+                }
+            }
+        }
+        2 => {
+            // the alternative names change hands
+            if h.main.len() >= 2 {
+                let a = h.main[0].allowed_sni.clone();
+                h.main[0].allowed_sni = h.main[1].allowed_sni.clone();
+                h.main[1].allowed_sni = a;
+            } else {
+                h.main[0].allowed_sni.clear();
+            }
+        }
+        3 => {
+            let n = h.main.len() + h.ping.len() + h.speed.len() + h.rp.len();
+            let k = rng.usize_below(n);
+            let c = cert_base % endpoint::N_CERTS;
+            if let Some(x) = h.main.iter_mut().chain(h.ping.iter_mut()).chain(h.speed.iter_mut()).chain(h.rp.iter_mut()).nth(k) {
+                x.cert = c;
+            }
+        }
+        4 => {
+            // one host changes class, name and certificate kept
+            if h.main.len() >= 2 && rng.chance(1, 2) {
+                let mut x = h.main.pop().unwrap();
+                x.allowed_sni.clear();
+                match rng.below(3) {
+                    0 => h.ping.push(x),
+                    1 => h.speed.push(x),
+                    _ => h.rp.push(x),
+                }
+            } else if let Some(x) = h.ping.pop().or_else(|| h.speed.pop()).or_else(|| h.rp.pop()) {
+                h.main.push(x);
+            }
+        }
+        _ => {
+            if !h.ping.is_empty() && rng.chance(1, 2) {
+                h.ping.pop();
+            } else if !h.rp.is_empty() && rng.chance(1, 2) {
+                h.rp.pop();
+            } else {
+                let used: Vec<&str> = h.main.iter().chain(&h.ping).chain(&h.speed).chain(&h.rp).map(|x| x.hostname.as_str()).collect();
+                if let Some(name) = NAMES.iter().find(|n| !used.contains(*n)) {
+                    let x = HostCfg { hostname: name.to_string(), cert: cert_base % endpoint::N_CERTS, allowed_sni: vec![] };
+                    if h.ping.is_empty() { h.ping.push(x) } else { h.speed.push(x) }
+                }
+            }
+        }
+    }
+    h
+}
+
 fn draw_alpn(rng: &mut Rng) -> Vec<Vec<u8>> {
     let pool: [&[u8]; 6] = [b"h3", b"h2", b"http/1.1", b"spdy/3", &[0xff, 0xfe, 0x80], b"h2c"];
     match rng.below(8) {
@@ -145,7 +212,10 @@ fn draw_sni(rng: &mut Rng, hosts: &[&Hosts]) -> Option<String> {
         0 => None,
         1 => Some("unknown.test".into()),
         2 | 3 => Some(format!("creds-canary-{}.{}", rng.below(5), rng.pick(&h.main).hostname)),
-        4 => h.main.iter().flat_map(|m| m.allowed_sni.iter()).next().cloned().or_else(|| Some(rng.pick(&all).hostname.clone())),
+        4 => {
+            let alts: Vec<&String> = h.main.iter().flat_map(|m| m.allowed_sni.iter()).collect();
+            if alts.is_empty() { Some(rng.pick(&all).hostname.clone()) } else { Some((*rng.pick(&alts)).clone()) }
+        }
         5 => Some((*rng.pick(NAMES)).to_string()),
         _ => Some(rng.pick(&all).hostname.clone()),
     }
@@ -172,21 +242,30 @@ impl Scenario for Demux {
         };
         let hosts = draw_hosts(&mut rng, 0);
         let mut current = hosts.clone();
+        let mut history: Vec<Hosts> = Vec::new();
         let mut ops = Vec::new();
         let n = 1 + rng.usize_below(7);
         for k in 0..n {
             match rng.below(10) {
                 0 | 1 => {
-                    let nh = draw_hosts(&mut rng, 3 + k);
+                    let nh = if rng.chance(1, 2) { draw_hosts(&mut rng, 3 + k) } else { edit_hosts(&mut rng, &current, 3 + k) };
                     let fault = if rng.chance(1, 2) { 1 + rng.below(4) as u8 } else { 0 };
                     ops.push(DOp::Reload { hosts: nh.clone(), fault });
                     if fault == 0 {
+                        history.push(current.clone());
                         current = nh;
                     }
                 }
                 2 => ops.push(DOp::Wait { us: rng.size(1, 100_000) }),
                 _ => {
-                    let sni = draw_sni(&mut rng, &[&current, &hosts]);
+                    // names of the configuration in force, of the one before it and of any earlier one
+                    let mut pool: Vec<&Hosts> = vec![&current, &current, &hosts];
+                    if let Some(prev) = history.last() {
+                        pool.push(prev);
+                        pool.push(prev);
+                    }
+                    pool.extend(history.iter());
+                    let sni = draw_sni(&mut rng, &pool);
                     ops.push(DOp::Connect {
                         sni,
                         alpn: draw_alpn(&mut rng),
